@@ -206,7 +206,7 @@ static ASMJIT_FAVOR_SIZE Error validate(InstDB::Mode mode, const BaseInst& inst,
 
   if (Support::test(options, InstOptions::kX86_Lock | kXAcqXRel)) {
     if (Support::test(options, InstOptions::kX86_Lock)) {
-      if (ASMJIT_UNLIKELY(!Support::test(inst_flags, InstDB::InstFlags::kLock) && !Support::test(options, kXAcqXRel))) {
+      if (ASMJIT_UNLIKELY(!Support::test(inst_flags, InstDB::InstFlags::kLock))) {
         return make_error(Error::kInvalidLockPrefix);
       }
 
@@ -216,7 +216,9 @@ static ASMJIT_FAVOR_SIZE Error validate(InstDB::Mode mode, const BaseInst& inst,
     }
 
     if (Support::test(options, kXAcqXRel)) {
-      if (ASMJIT_UNLIKELY(!Support::test(options, InstOptions::kX86_Lock) || (options & kXAcqXRel) == kXAcqXRel)) {
+      // XACQUIRE|XRELEASE must be used with LOCK unless the instruction is not lockable (XRELEASE MOV).
+      bool lock_missing = !Support::test(options, InstOptions::kX86_Lock) && Support::test(inst_flags, InstDB::InstFlags::kLock);
+      if (ASMJIT_UNLIKELY(lock_missing || (options & kXAcqXRel) == kXAcqXRel)) {
         return make_error(Error::kInvalidPrefixCombination);
       }
 
